@@ -231,6 +231,24 @@ def gen_prog(rng, cls):
         ring = rng.choice([fb4 * 2 + 16, fb4 * 3 + 8, fb4 * 6])
         prog = ["cfg 0 cam=0 sto=2 w=%d h=%d type=4 n=%d avg=%d" % (w, h, rng.choice([3, 5]), rng.choice([2, 3])), "configure", "start",
                 "sleep %d" % rng.randrange(40, 80), "state", rng.choice(["abort", "stop"]), cfg0, "configure", "start", "stop"]
+    elif cls == "incomplete":
+        # C08 / C11: a storage device whose driver leaves an interface entry NULL: storage_open refuses it — one open, one close —
+        # and the stream works with a complete device afterwards
+        other = "cfg 0 cam=0 sto=5 w=%d h=%d type=%d n=%d" % (w, h, t, n)
+        faults = ["stoincomplete 5"]
+        prog = rng.choice([[other, "configure"], [cfg0, "configure", "start", "stop", other, "configure"]]) + \
+               rng.choice([[cfg0, "configure", "start", "stop"], ["state"], [other, "configure"]]) + rng.choice([["shutdown"], []])
+    elif cls == "stofaultpoll":
+        # C09 / C08: the storage fails and the client only polls the state: once every worker has gone the runtime stops saying Running
+        faults = ["sto 2 %d%s" % (rng.randrange(0, 4), rng.choice(["", " p"]))]
+        prog = [cfg0.replace("n=%d" % n, "n=%d" % rng.choice([10, 30, 1000])), "configure", "start", "sleep %d" % rng.randrange(60, 120), "state",
+                rng.choice(["stop", "abort"]), cfg0, "configure", "start", "stop"]
+    elif cls == "switchmon":
+        # C06: the client monitors, the acquisition is stopped, the stream gets another camera, the client monitors again: it is handed
+        # frames of the new acquisition only
+        other = "cfg 0 cam=4 sto=2 w=%d h=%d type=%d n=%d" % (w, h, t, rng.choice([2, 4, 7]))
+        prog = [cfg0, "configure", "start", "map 0", "unmap 0 all", "monwait 0", "stop", other, "configure", "start",
+                "map 0", "unmap 0 all", "monwait 0", "stop"] + rng.choice([[], [cfg0, "configure", "start", "map 0", "unmap 0 all", "monwait 0", "stop"]])
     elif cls == "setfail":
         # C11 / C08: a re-configuration switches stream 0 to another storage that opens but rejects the settings; the stream must not
         # be left with a handle to a device that was closed on the way (the replacement is closed or kept, the old one is gone)
